@@ -1,4 +1,5 @@
 import Qryn.Proofs.Ingest
+import Qryn.Proofs.Utf8
 /-! # C03 — log and metric ingest decodes every entry to exactly one faithful row
 
 Model: `Qryn.Ingest.Builder` (`onEntries`, flush/reset, cache, sanitiser, TTL label) and `Qryn.Ingest.Decode`
@@ -14,9 +15,11 @@ not depend on their values except where stated (`size_pos_gen`, `type_of_entry`,
 namespace Qryn.C03
 open Qryn Qryn.Ingest
 
-/-- the row the property demands for an entry of a stream whose label list (as handed to the builder) is `ident` -/
+/-- the row the property demands for an entry of a stream whose label list (as handed to the builder) is `ident`:
+    the fingerprint is taken of `identOf` = `validUTF8Labels` of the list after the `__ttl_days__` preamble, i.e. for a
+    sanitising decoder `fp (validLabels (effective ttl (sanitizeLabels labels)).1)` -/
 def want (env : Env) (ident : Labels) (e : Entry) : Row :=
-  rowOf (env.fp (effective env.ctxTtl ident).1) (effective env.ctxTtl ident).2 e
+  rowOf (env.fp (identOf env.ctxTtl ident)) (ttlOf env.ctxTtl ident) e
 
 /-- **All protocols.** For every body of every protocol, every fingerprint function, every threshold: the parser
     does not fault, and the sample rows of all chunks it emits, concatenated in emission order, are exactly: for each
@@ -176,7 +179,31 @@ theorem sanitiser_source :
     Gen.otlpKeyRe = "[^a-zA-Z0-9_]" ∧ Gen.labelValueCut ≤ Gen.labelValueMax := by
   decide
 
+/-- **`validUTF8Labels`** (`strings.ToValidUTF8`): valid UTF-8 is left alone (so for well-formed text the identity of a
+    stream is its sanitised label list, as before the C04 fix), the result is always valid UTF-8 (so the label document
+    is JSON that decodes to the fingerprinted set), and applying it again changes nothing. -/
+theorem toValidUTF8_id_on_valid (s : Bytes) (h : validUTF8 s = true) : toValidUTF8 s = s :=
+  toValidUTF8_of_valid' s h
+
+theorem toValidUTF8_valid (s : Bytes) : validUTF8 (toValidUTF8 s) = true := toValidUTF8_valid' s
+
+theorem toValidUTF8_idempotent (s : Bytes) : toValidUTF8 (toValidUTF8 s) = toValidUTF8 s :=
+  toValidUTF8_of_valid' _ (toValidUTF8_valid' s)
+
+theorem validLabels_idempotent (ls : Labels) : validLabels (validLabels ls) = validLabels ls := by
+  simp [validLabels, Function.comp_def, toValidUTF8_idempotent]
+
 /-! ### non-vacuity -/
+
+/-- a run of invalid bytes becomes ONE U+FFFD; a rune cut by the value truncation ("日" = E6 97 A5 cut after two
+    bytes, then "...") is repaired; a well-formed multi-byte rune and U+FFFD itself pass -/
+example : toValidUTF8 [0x61, 0xFF, 0xFE, 0x80, 0x62] = [0x61, 0xEF, 0xBF, 0xBD, 0x62] := by decide +kernel
+example : toValidUTF8 [0xE6, 0x97, 0x2E, 0x2E, 0x2E] = [0xEF, 0xBF, 0xBD, 0x2E, 0x2E, 0x2E] := by decide +kernel
+example : toValidUTF8 [0xE6, 0x97, 0xA5, 0xEF, 0xBF, 0xBD, 0xF0, 0x9F, 0x98, 0x80] = [0xE6, 0x97, 0xA5, 0xEF, 0xBF, 0xBD, 0xF0, 0x9F, 0x98, 0x80] := by
+  decide +kernel
+example : validUTF8 [0xED, 0xA0, 0x80] = false ∧ validUTF8 [0xC0, 0x80] = false ∧ validUTF8 [0xF4, 0x90, 0x80, 0x80] = false := by
+  decide +kernel
+
 
 def exEnv : Env := ⟨fun _ => 7, fun _ => 10, fun n => n > 60, 26, 14, 0⟩
 def exDoc : PromWrite := [⟨[([97], [98])], [⟨1, 10⟩, ⟨2, 20⟩, ⟨3, 30⟩, ⟨4, 40⟩, ⟨5, 50⟩]⟩]
